@@ -59,6 +59,15 @@ class Sub2(Base):
         self.n = n
 
 
+class Sub3(Base):
+    """same parameter name as Sub1.opts, different type: a class_path change cannot keep the old value"""
+
+    def __init__(self, n: float = 3, opts: int = 0):
+        self._rec(n=n, opts=opts)
+        self.n = n
+        self.opts = opts
+
+
 class Unrelated(SimObj):
     def __init__(self, q: int = 0):
         self._rec(q=q)
